@@ -328,6 +328,28 @@ func (x *Ctx) intervalRules(r *core.Result) {
 	for _, n := range []string{"ReadInt", "ReadUint"} {
 		x.widthDispatchRule(r, b, n)
 	}
+	// ReadInt / ReadUint choose their reader by the platform's int size: the other word size is dead code in this
+	// build, so the same rule is applied to the 32-bit build as well (the thorough tier runs everything there)
+	if x.W.GOARCH == "" && x.Tier == "quick" {
+		if w32, err := core.Load(x.W.Dir, "386", x.W.Tags); err != nil {
+			r.Undecided(b, "GOARCH=386:load", "-", err.Error())
+		} else {
+			x32 := NewCtx(w32, "variant")
+			sub := core.NewResult(r.Prop, r.Level, r.Tier)
+			sb := sub.Rule("R05b/c", "")
+			for _, n := range []string{"ReadInt", "ReadUint"} {
+				x32.widthDispatchRule(sub, sb, n)
+			}
+			for _, f := range sub.Findings {
+				f.Key = "[GOARCH=386] " + f.Key
+				r.Findings = append(r.Findings, f)
+				b.Obligations++
+			}
+			b.Instances += sb.Instances
+			b.Obligations += sb.Discharged
+			b.Discharged += sb.Discharged
+		}
+	}
 	r.CheckFloor(b, 5)
 	d := r.Rule("R05d", "numeric side conditions of ReadUint64: each digit-accumulating loop is either bounded to N digits with 10^N-1 <= 2^64-1, or refuses val > c before multiplying and refuses a result smaller than the previous value, with floor((2^64-1)/10) <= c <= floor((2^64-10)/9); the digit added is data[p]-'0' of the cursor byte; the accumulated value is what success returns")
 	x.uint64LoopRule(r, d)
